@@ -302,3 +302,30 @@ def in6_shareable_callbacks_own_no_new_shared_state(ctx, rep):
         rep.check(not bad, R, "no-new-shared-state:" + nm, "", "%s owns no interior-mutable state outside the confirmed table" % a["path"],
                   "the exported callback type %s owns interior-mutable state %s: two stores that share the object now interact through it" % (a["path"], bad))
     rep.floor(R, "exported callback types", n, 2)
+
+
+KNOWN_DROP_ADTS = ("StoreImpl", "StateIteratorSubscriber", "StateIterator", "DroppableStore")  # Drop impls of the pinned revision
+
+
+def in7_no_user_callback_in_a_new_destructor(ctx, rep):
+    """user callbacks (reducers, middleware hooks, subscribers) are not called from a destructor
+    the pinned revision does not have: a scope guard whose `Drop` runs them also runs them while
+    a panic unwinds, and a second panic there aborts the whole process - every other store in it
+    included"""
+    R = "IN7"
+    A = ctx.A
+    n = 0
+    for b in ctx.prog.bodies:
+        if b.is_closure() or b.j.get("name") != "drop" or not (b.j.get("impl_trait") or "").endswith("ops::Drop"):
+            continue
+        n += 1
+        nm = (b.j.get("impl_adt") or b.j.get("impl_self") or "?").split("::")[-1].split("<")[0]
+        if nm in KNOWN_DROP_ADTS:
+            continue
+        rep.note_fn(b.path)
+        reach = ctx.sync_reach([b])
+        evs = sorted({"%s in %s" % (A.event(s_), short(s_.body.path)) for rb in reach.values() for s_ in ctx.prog.sites(rb)
+                      if (A.event(s_) or "") in ("REDUCE", "NOTIFY", "UNSUB", "ON_ERROR") or (A.event(s_) or "").startswith("HOOK:")})
+        rep.check(not evs, R, "destructor-calls-no-user-callback:%s" % nm, ctx.where(b), "Drop for %s calls no user callback" % nm,
+                  "Drop for %s (new) reaches user callbacks %s: they also run during unwinding, where a second panic aborts the process" % (nm, evs[:3]))
+    rep.floor(R, "Drop impls in the crate", n, 3)
